@@ -164,6 +164,11 @@ func materialize(a absVal, env *runEnv) interface{} {
 		return float64(a.Num) / float64(uint64(1)<<a.Exp)
 	case "arr":
 		switch a.Go {
+		case "prefixself":
+			// [x, [x]] built as ONE Go slice whose second element is its own one-element prefix (same storage, shorter)
+			all := []interface{}{materialize(a.Xs[0], env), nil}
+			all[1] = all[:1]
+			return all
 		case "strs":
 			xs := make([]string, 0, len(a.Xs))
 			for _, x := range a.Xs {
